@@ -26,7 +26,7 @@ RULE = (
     "environment pair in which the iteration order of Grammar.all_nodes actually differed"
 )
 
-ALGOS = ["gp", "rs", "hc", "1+1"]
+ALGOS = ["gp", "gpx", "rs", "hc", "1+1"]  # gpx = GP whose step always crosses over and mutates
 REPS = ["tree", "ge", "sge", "dsge", "stack"]
 
 
@@ -92,6 +92,14 @@ def run_config(cfg, hash_order=None, want_trace=False):
         try:
             if algo == "gp":
                 alg = GeneticProgramming(problem, budget, rep, random=r, population_size=6)
+            elif algo == "gpx":
+                from geneticengine.algorithms.gp.operators.combinators import SequenceStep
+                from geneticengine.algorithms.gp.operators.crossover import GenericCrossoverStep
+                from geneticengine.algorithms.gp.operators.mutation import GenericMutationStep
+                from geneticengine.algorithms.gp.operators.selection import TournamentSelection
+
+                alg = GeneticProgramming(problem, budget, rep, random=r, population_size=6,
+                                         step=SequenceStep(TournamentSelection(3), GenericCrossoverStep(1), GenericMutationStep(1)))
             elif algo == "rs":
                 alg = RandomSearch(problem, budget, rep, random=r)
             elif algo == "hc":
@@ -164,7 +172,7 @@ def units(tier, seed):
                  ("random", "classes", "numpy-first"), ("1", "none", "numpy-first")}]
     us.append({"kind": "processes", "envs": envs, "configs": cfgs})
     for cfg in cfgs:
-        if cfg["algo"] in ("gp", "hc") and cfg["seed"] == cfgs[0]["seed"]:
+        if cfg["algo"] in ("gp", "gpx", "hc") and cfg["seed"] == cfgs[0]["seed"]:
             us.append({"kind": "orders", "config": cfg, "max_perms": 24 if tier == "quick" else 120})
     for cfg in cfgs:
         us.append({"kind": "twice", "config": cfg})
